@@ -104,14 +104,21 @@ def impl_op(c):
     from emu_sv.state_vector import StateVector
     ops = _ops_py(c["ops"])
     d, _ = DenseOperator._from_operator_repr(eigenstates=("r", "g"), n_qudits=c["N"], operations=ops)
-    sp, _ = SparseOperator._from_operator_repr(eigenstates=("r", "g"), n_qudits=c["N"], operations=ops)
+    if SPARSE_BROKEN[0]:  # already reported on the COO cases; building the operator could crash the interpreter
+        sp = None
+    else:
+        sp, _ = SparseOperator._from_operator_repr(eigenstates=("r", "g"), n_qudits=c["N"], operations=ops)
     v = StateVector(torch.tensor([cplx(p) for p in c["vec"]], dtype=torch.complex128), gpu=False)
     s = cplx(c["scalar"])
     tl = lambda t: [complex(x) for x in t.reshape(-1).tolist()]
-    out = {"dense": tl(d.data), "sparse": tl(sp.data.to_dense()), "apply": tl(d.apply_to(v).data),
-           "sp_apply": tl(sp.apply_to(v).data), "expect": complex(d.expect(v)), "sp_expect": complex(sp.expect(v)),
-           "matmul": tl((d @ d).data), "add": tl((d + d).data), "rmul": tl((s * d).data),
-           "sp_add": tl((sp + sp).data.to_dense()), "sp_rmul": tl((s * sp).data.to_dense())}
+    out = {"dense": tl(d.data), "apply": tl(d.apply_to(v).data), "expect": complex(d.expect(v)),
+           "matmul": tl((d @ d).data), "add": tl((d + d).data), "rmul": tl((s * d).data)}
+    if sp is None:
+        out.update({"sparse": None, "sp_apply": None, "sp_expect": None, "sp_add": None, "sp_rmul": None})
+    else:
+        out.update({"sparse": tl(sp.data.to_dense()), "sp_apply": tl(sp.apply_to(v).data),
+                    "sp_expect": complex(sp.expect(v)), "sp_add": tl((sp + sp).data.to_dense()),
+                    "sp_rmul": tl((s * sp).data.to_dense())})
     if not c["repeated"]:
         d2 = DenseOperator.from_operator_repr(eigenstates=("r", "g"), n_qudits=c["N"], operations=ops)
         out["public_same"] = bool(torch.equal(d2.data, d.data))
@@ -125,11 +132,23 @@ def _coo_t(x):
                                    tuple(x["shape"])).coalesce()
 
 
+SPARSE_BROKEN = [False]  # set when sparse_kron/sparse_add produce malformed tensors (to_dense would corrupt memory)
+
+
 def impl_coo(c):
     from emu_sv.sparse_operator import sparse_kron, sparse_add
     a, b, a2 = _coo_t(c["a"]), _coo_t(c["b"]), _coo_t(c["a2"])
-    tl = lambda t: [complex(x) for x in t.to_dense().reshape(-1).tolist()]
-    return {"kron": tl(sparse_kron(a, b)), "add": tl(sparse_add(a, a2))}
+
+    def tl(t, shape):
+        idx = t._indices()
+        if tuple(t.shape) != shape or (idx.numel() and (int(idx[0].max()) >= shape[0] or int(idx[1].max()) >= shape[1]
+                                                        or int(idx.min()) < 0)):
+            SPARSE_BROKEN[0] = True
+            return None
+        return [complex(x) for x in t.to_dense().reshape(-1).tolist()]
+
+    (ra, ca), (rb, cb) = c["a"]["shape"], c["b"]["shape"]
+    return {"kron": tl(sparse_kron(a, b), (ra * rb, ca * cb)), "add": tl(sparse_add(a, a2), (ra, ca))}
 
 
 # ------------------------------------------------------------------------------------------------
@@ -186,6 +205,8 @@ def _coo_lit(x):
 
 
 def diff(expr, expected):
+    if expected is None:  # the real code produced a malformed result
+        return "(-4)"
     return f"dy_first_diff 0 ({expr}) {dyl(expected)}"
 
 
@@ -345,14 +366,14 @@ def run(ctx):
             bits_expected[i] = (N, digits, rejected)
 
     cases = [dict(c, corpus=True) for c in corpus_cases()]
+    for _ in range(ctx.n(25, 300)):  # first: a malformed sparse_kron result must be seen before operators are built
+        cases.append(gen_coo_case(rng))
+    cases.sort(key=lambda c: c["kind"] != "coo")
     for N in range(1, 9):
         for _ in range(ctx.n(3, 20) if N <= 6 else ctx.n(1, 4)):
             cases.append(gen_state_case(rng, N))
         for i in range(ctx.n(3, 20) if N <= 5 else ctx.n(1, 3)):
             cases.append(gen_op_case(rng, N, repeated=(i % 3 == 2)))
-    for _ in range(ctx.n(25, 300)):
-        cases.append(gen_coo_case(rng))
-
     n_model = 0
     for c in cases:
         r = run_real(c)
